@@ -3757,7 +3757,23 @@ func (p *Posix) DeleteObjects(ctx context.Context, input *s3.DeleteObjectsInput)
 	}, nil
 }
 
-func (p *Posix) GetObject(_ context.Context, input *s3.GetObjectInput) (*s3.GetObjectOutput, error) {
+// errVersionMoved: the version a request named by id was the current one when
+// its id was looked up by name and has been replaced (archived) since
+var errVersionMoved = errors.New("version archived meanwhile")
+
+func (p *Posix) GetObject(ctx context.Context, input *s3.GetObjectInput) (*s3.GetObjectOutput, error) {
+	out, err := p.getObject(ctx, input)
+	if errors.Is(err, errVersionMoved) {
+		// once more: the lookup now finds it in the versioning directory
+		out, err = p.getObject(ctx, input)
+		if errors.Is(err, errVersionMoved) {
+			return nil, s3err.GetAPIError(s3err.ErrInvalidVersionId)
+		}
+	}
+	return out, err
+}
+
+func (p *Posix) getObject(_ context.Context, input *s3.GetObjectInput) (*s3.GetObjectOutput, error) {
 	if input.Bucket == nil {
 		return nil, s3err.GetAPIError(s3err.ErrInvalidBucketName)
 	}
@@ -3946,6 +3962,23 @@ func (p *Posix) getFileObject(input *s3.GetObjectInput, bucket, object, objPath,
 		return nil, s3err.GetAPIError(s3err.ErrNoSuchKey)
 	}
 
+	if p.versioningEnabled() && versionId != "" {
+		// the file that was opened is the version that was asked for: its
+		// id was looked up by name before the open, and the current object
+		// may have been replaced (and archived) in between
+		vId, err := p.meta.RetrieveAttribute(f, bucket, object, versionIdKey)
+		if err != nil && !errors.Is(err, meta.ErrNoSuchKey) {
+			return nil, fmt.Errorf("get object versionId: %w", err)
+		}
+		actual := nullVersionId
+		if err == nil {
+			actual = string(vId)
+		}
+		if actual != versionId {
+			return nil, errVersionMoved
+		}
+	}
+
 	if p.versioningEnabled() {
 		_, err := p.meta.RetrieveAttribute(f, bucket, object, deleteMarkerKey)
 		if err != nil && !errors.Is(err, meta.ErrNoSuchKey) {
@@ -4058,6 +4091,17 @@ func (p *Posix) getFileObject(input *s3.GetObjectInput, bucket, object, objPath,
 }
 
 func (p *Posix) HeadObject(ctx context.Context, input *s3.HeadObjectInput) (*s3.HeadObjectOutput, error) {
+	out, err := p.headObject(ctx, input)
+	if errors.Is(err, errVersionMoved) {
+		out, err = p.headObject(ctx, input)
+		if errors.Is(err, errVersionMoved) {
+			return nil, s3err.GetAPIError(s3err.ErrInvalidVersionId)
+		}
+	}
+	return out, err
+}
+
+func (p *Posix) headObject(ctx context.Context, input *s3.HeadObjectInput) (*s3.HeadObjectOutput, error) {
 	if input.Bucket == nil {
 		return nil, s3err.GetAPIError(s3err.ErrInvalidBucketName)
 	}
@@ -4187,6 +4231,22 @@ func (p *Posix) HeadObject(ctx context.Context, input *s3.HeadObjectInput) (*s3.
 		fi, err = f.Stat()
 		if err != nil {
 			return nil, fmt.Errorf("stat object: %w", err)
+		}
+	}
+
+	if p.versioningEnabled() && versionId != "" && f != nil {
+		// (as in GetObject) the file that was opened is the version that
+		// was asked for
+		vId, err := p.meta.RetrieveAttribute(f, bucket, object, versionIdKey)
+		if err != nil && !errors.Is(err, meta.ErrNoSuchKey) {
+			return nil, fmt.Errorf("get object versionId: %v", err)
+		}
+		actual := nullVersionId
+		if err == nil {
+			actual = string(vId)
+		}
+		if actual != versionId {
+			return nil, errVersionMoved
 		}
 	}
 
